@@ -6,6 +6,7 @@ package main
 import (
 	"fmt"
 	"maps"
+	"math"
 	"sort"
 	"sync/atomic"
 
@@ -533,6 +534,70 @@ func makeBFS(pops *int64) *mc.BFS[mop] {
 	}
 }
 
+// nanHistory runs one history on a Set[float64] whose members may include
+// NaN. NaN differs from every value including itself, so as a mathematical
+// set every added NaN is one more distinct member that no lookup or Remove
+// can name: the reference is the mask of ordinary members plus a NaN count.
+// Ops: 0 Add(NaN), 1 Add(1), 2 Add(NaN,2), 3 Remove(NaN), 4 Remove(1),
+// 5 Clear, 6 RemoveAll(self clone), 7 AddAll({NaN,2}).
+// Pop is left out on purpose: a NaN member cannot be deleted through the map
+// API, so Pop on such a set is outside what the property can state.
+func nanHistory(ops []int) *mc.Failure {
+	nan := math.NaN()
+	var s mapset.Set[float64]
+	nans, mem := 0, map[float64]bool{}
+	for step, op := range ops {
+		switch op {
+		case 0:
+			s.Add(nan)
+			nans++
+		case 1:
+			s.Add(1)
+			mem[1] = true
+		case 2:
+			s.Add(nan, 2)
+			nans++
+			mem[2] = true
+		case 3:
+			s.Remove(nan)
+		case 4:
+			s.Remove(1)
+			delete(mem, 1)
+		case 5:
+			s.Clear()
+			nans, mem = 0, map[float64]bool{}
+		case 6:
+			s.RemoveAll(s.Clone()) // removes the ordinary members; the clone's NaNs name nothing
+			mem = map[float64]bool{}
+		case 7:
+			s.AddAll(mapset.New(nan, 2))
+			nans++
+			mem[2] = true
+		}
+		if s.Len() != nans+len(mem) || s.IsEmpty() != (nans+len(mem) == 0) {
+			return mc.Failf(step, "Len=%d IsEmpty=%v want %d members (%d NaN) after %v", s.Len(), s.IsEmpty(), nans+len(mem), nans, ops[:step+1])
+		}
+		if s.Has(nan) || s.Has(1) != mem[1] || s.Has(2) != mem[2] || s.Has(3) {
+			return mc.Failf(step, "membership after %v: Has(NaN)=%v Has(1)=%v Has(2)=%v", ops[:step+1], s.Has(nan), s.Has(1), s.Has(2))
+		}
+		gotN := 0
+		for _, v := range s.Slice() {
+			if v != v {
+				gotN++
+			} else if !mem[v] {
+				return mc.Failf(step, "Slice holds %v, not a member", v)
+			}
+		}
+		if gotN != nans || len(s.Slice()) != nans+len(mem) {
+			return mc.Failf(step, "Slice has %d NaN of %d elements, want %d of %d", gotN, len(s.Slice()), nans, nans+len(mem))
+		}
+		if c := s.Clone(); c == nil || c.Len() != s.Len() {
+			return mc.Failf(step, "Clone has %d members, want %d", c.Len(), s.Len())
+		}
+	}
+	return nil
+}
+
 func main() {
 	var pops int64
 	mc.Main("C18",
@@ -604,6 +669,42 @@ func main() {
 					return mc.Failf(-1, "bad trace: %v", err)
 				}
 				return check(t)
+			},
+		},
+		mc.Harness{
+			Name: "nan-sets",
+			Explore: func(r *mc.Run) {
+				depth := mc.Pick(r, 4, 6)
+				total := 1
+				for i := 0; i < depth; i++ {
+					total *= 8
+				}
+				var evals, nontriv int64
+				mc.ParallelFor(total, r.Workers, func(i int) {
+					ops := make([]int, depth)
+					hasNaN := false
+					for j, x := 0, i; j < depth; j, x = j+1, x/8 {
+						ops[j] = x % 8
+						hasNaN = hasNaN || ops[j] == 0 || ops[j] == 2 || ops[j] == 7
+					}
+					if f := mc.Guard(func() *mc.Failure { return nanHistory(ops) }); f != nil {
+						r.Violation(mc.Case{Harness: "nan-sets", Trace: mc.J(ops), Msg: f.Msg})
+					}
+					atomic.AddInt64(&evals, 1)
+					if hasNaN {
+						atomic.AddInt64(&nontriv, 1)
+					}
+				})
+				r.AddEval(evals, evals*int64(depth), evals, nontriv)
+				r.Rule(fmt.Sprintf("Set[float64] from nil: every history of %d steps over Add(NaN), Add(1), Add(NaN,2), Remove(NaN), Remove(1), Clear, RemoveAll(clone), AddAll({NaN,2}); after every step Len/IsEmpty/Has/Slice/Clone against ordinary members + a count of NaN members (each NaN is distinct and unnameable); Pop excluded; non-trivial = histories that add a NaN", depth))
+				r.Sample([]int{0, 1, 5})
+			},
+			Replay: func(c mc.Case) *mc.Failure {
+				var ops []int
+				if err := mc.Unmarshal(c.Trace, &ops); err != nil {
+					return mc.Failf(-1, "bad trace: %v", err)
+				}
+				return mc.Guard(func() *mc.Failure { return nanHistory(ops) })
 			},
 		},
 		mc.Harness{
